@@ -26,9 +26,11 @@ def generate_tables(ctx):
 def cell_id(c):
     k = c["kind"]
     if k in ("assign", "compare"):
-        return "%s:%s %s %s/%s" % (k, c["lt"], c["op"], c["rt"], c["form"])
+        return "%s:%s[%s] %s %s/%s[%s]" % (k, c["lt"], c["linit"], c["op"], c["rt"], c["form"], c["rinit"])
     if k == "var":
         return "var:%s/%s@%s" % (c["name"], c["access"], "+".join(c["scopes"]))
+    if k == "fnconv":
+        return "fnconv:%s(%s)#%d<-%s/%s@%s" % (c["name"], ",".join(c["sig"]), c["pos"], c["rt"], c["form"], "+".join(c["scopes"]))
     if k == "fnsig":
         return "fnsig:%s:%s(%s)@%s" % (c["why"], c["name"], ",".join(c["sig"]), "+".join(c["scopes"]))
     if k == "fn":
@@ -84,7 +86,8 @@ def run(ctx):
             kinds[b["cell"]["kind"]] += 1
             f.write(line)
             c = b["cell"]
-            if c["kind"] == "assign" and c["op"] == "=" and c["lt"] == "INTEGER" and c["rt"] == "INTEGER" and c["form"] == "literal":
+            if c["kind"] == "assign" and c["op"] == "=" and c["lt"] == "INTEGER" and c["rt"] == "INTEGER" and c["form"] == "literal" \
+                    and c["linit"] == "none":
                 cb = json.loads(line); cb["id"] = "canary-accept-flipped"; cb["lint"] = "reject"
                 canaries[cb["id"]] = cb
             if c["kind"] == "stmt" and c["stmt"] == "synthetic" and c["scopes"] == ["RECV"]:
